@@ -168,6 +168,7 @@ def handle : List String → String
   | ["tag", _] => "t"
   | "pow" :: _ => "-"
   | "bnd" :: _ => "-"
+  | "rnd" :: _ => "-"   -- Randomizable for u8..u128: judged by the harness oracle only
   | _ => "bad-op"
 
 end Drv.C19
